@@ -3,3 +3,10 @@
 Importing this package installs nothing.  Monitors attach only when a check asks for them
 (vmon.monitors.attach) and only when UTYPE_VERIF_MONITORS is set, which ./check does.
 """
+
+import sys as _sys
+import types as _types
+
+# generated data classes / functions live in a real module: the library resolves annotations through
+# sys.modules[cls.__module__].__dict__
+GENERATED = _sys.modules.setdefault("vmon_generated", _types.ModuleType("vmon_generated"))
